@@ -60,6 +60,7 @@ func runC18(env *core.Env, ci any) {
 	pc := &polCase{Prop: "C18", Localhost: "allow", Conns: []polConn{{}}}
 	w := newPolWorld(env, pc)
 	sut.Install(env)
+	env.AcctInexact = true // (C13 mode) clients here abandon exchanges on purpose: only gauges and inequalities are judged
 	w.setup()
 	env.Net.AddNode("sutB", ipSUT2, "proxy-b2.example")
 	addrA, addrB := ipSUT+":3128", ipSUT2+":3128"
